@@ -340,9 +340,11 @@ def check_flatten_rebinding(ctx):
                     continue
                 for dm in same_branch:
                     t = ex.expand(dm.value, dm.node)
-                    # {'None': <sorted union>}
-                    shape = (t[0] == 'dict' and len(t[1]) == 1
-                             and t[1][0][0] == ('const', "'None'"))
+                    # {'None': <sorted union>}, as a display or as an
+                    # empty table followed by its keyed stores
+                    items = _dict_items(dm)
+                    shape = (items is not None and len(items) == 1
+                             and items[0][0] == 'None')
                     if not shape:
                         ok_all = False
                         detail = ('under flatten the marker table is '
@@ -351,7 +353,7 @@ def check_flatten_rebinding(ctx):
                         continue
                     # the value: a list built from a set union over every
                     # key of the table, then sorted
-                    vname = dm.value.values[0]
+                    vname = items[0][1]
                     sorted_ok = False
                     union_ok = False
                     if isinstance(vname, ast.Name):
@@ -374,6 +376,37 @@ def check_flatten_rebinding(ctx):
                    "under flatten the tree and the marker table are "
                    "rebound together; the table is {'None': union of "
                    "all groups}" if ok_all else detail)
+
+
+def _dict_items(d):
+    """[(constant key, value expression)] of a table defined by a display
+    or by an empty creation followed at once by constant-key stores; None
+    when it is neither"""
+    v = d.value
+    if isinstance(v, ast.Dict):
+        if all(isinstance(k, ast.Constant) for k in v.keys):
+            return [(k.value, x) for k, x in zip(v.keys, v.values)]
+        return None
+    empty = (isinstance(v, ast.Call) and isinstance(v.func, ast.Name)
+             and v.func.id == 'dict' and not v.args and not v.keywords)
+    if not empty or d.stmt is None:
+        return None
+    par = getattr(d.stmt, '_parent', None)
+    for field in ('body', 'orelse', 'finalbody'):
+        blk = getattr(par, field, None)
+        if isinstance(blk, list) and d.stmt in blk:
+            out = []
+            for st in blk[blk.index(d.stmt) + 1:]:
+                if isinstance(st, ast.Assign) and len(st.targets) == 1 \
+                        and isinstance(st.targets[0], ast.Subscript) \
+                        and isinstance(st.targets[0].value, ast.Name) \
+                        and st.targets[0].value.id == d.name \
+                        and isinstance(st.targets[0].slice, ast.Constant):
+                    out.append((st.targets[0].slice.value, st.value))
+                else:
+                    break
+            return out
+    return None
 
 
 def _controlling_if(stmt):
